@@ -30,6 +30,8 @@ EXPLANATION = __doc__
 
 def run(ctx: RuleContext):
     ctx.sub(check_nesting, ctx)
+    ctx.sub(check_derived_fields_follow_the_merge, ctx)
+    ctx.sub(check_any_accepts_every_array_like, ctx)
     ctx.sub(check_union_typevar, ctx)
     ctx.sub(check_scalar_ladder, ctx)
     ctx.sub(check_aliases, ctx)
@@ -37,6 +39,129 @@ def run(ctx: RuleContext):
 
 def _mk(ctx):
     return ctx.model.func("_array_types._make_array_cached")
+
+
+# ------------------------------------------------------------------------ C15.6
+def check_any_accepts_every_array_like(ctx):
+    """`D[Any, s]` (and with it an unconstrained TypeVar) stands for *every* object that has `shape` and `dtype`: the array-type stage for
+    `Any` rejects exactly when one of the two attributes is missing.  An extra requirement (`isinstance(obj.shape, tuple)`: TensorFlow's
+    `TensorShape`, lists, duck arrays) makes `D[Any, s]` narrower than `D[TheirClass, s]`."""
+    import itertools
+
+    m = ctx.model
+    f = m.func("_array_types._MetaAbstractArray.__instancecheck_str__")
+    ctx.saw(f)
+    cls_p, obj = f.params[0], (f.params[1] if len(f.params) > 1 else "obj")
+    tops = [st for st in walk_scope(f.node) if isinstance(st, ast.If) and norm(st.test) in (f"{cls_p}.array_type is Any", f"Any is {cls_p}.array_type")]
+    need(len(tops) == 1, "C15.6: the `array_type is Any` branch of the array check was not found")
+    rej = [st for st in tops[0].body if isinstance(st, ast.If) and any(isinstance(x, ast.Return) and not (isinstance(x.value, ast.Constant) and x.value.value == "") for x in st.body)]
+    need(len(rej) >= 1 and len(rej) == len(tops[0].body), "C15.6: the `Any` branch is not made of rejecting tests only")
+    if len(rej) > 1:
+        # further rejections: each is an extra requirement unless it only asks for the two attributes again
+        for extra_if in rej[1:]:
+            if not all(norm(a_) in (f"hasattr({obj}, 'shape')", f"hasattr({obj}, 'dtype')") for a_ in ast.walk(extra_if.test) if isinstance(a_, ast.Call)) or \
+                    not any(isinstance(a_, ast.Call) for a_ in ast.walk(extra_if.test)) or any(isinstance(a_, ast.Attribute) and norm(a_.value) == obj for a_ in ast.walk(extra_if.test)):
+                ctx.bad("C15.6", f, extra_if.test, f"for `Any` the array-type stage also rejects on `{short(extra_if.test, 60)}`: an object that has `shape` and `dtype` but fails it is rejected by "
+                        "`D[Any, s]` (and by an unconstrained TypeVar) although `D[<its class>, s]` accepts it", construct=f"extra requirement for Any: {short(extra_if.test, 60)}")
+                return
+    test = rej[0].test
+    atoms = []
+
+    def rec(e):
+        if isinstance(e, ast.BoolOp):
+            for v in e.values:
+                rec(v)
+        elif isinstance(e, ast.UnaryOp) and isinstance(e.op, ast.Not):
+            rec(e.operand)
+        else:
+            atoms.append(e)
+
+    rec(test)
+    want = {f"hasattr({obj}, 'shape')", f"hasattr({obj}, 'dtype')"}
+    texts = sorted({norm(a) for a in atoms})
+    extra = [t for t in texts if t not in want]
+    if extra:
+        ctx.bad("C15.6", f, rej[0].test, f"for `Any` the array-type stage also tests `{extra[0]}`: an object that has `shape` and `dtype` but fails it is rejected by `D[Any, s]` (and by an "
+                "unconstrained TypeVar) although `D[<its class>, s]` accepts it", construct=f"extra requirement for Any: {extra[0]}")
+        return
+    if set(texts) != want:
+        ctx.bad("C15.6", f, rej[0].test, f"for `Any` the array-type stage does not require both `shape` and `dtype` (it tests {texts})", construct="Any: shape/dtype test incomplete")
+        return
+
+    def ev(e, val):
+        if isinstance(e, ast.BoolOp):
+            vs = [ev(v, val) for v in e.values]
+            return all(vs) if isinstance(e.op, ast.And) else any(vs)
+        if isinstance(e, ast.UnaryOp) and isinstance(e.op, ast.Not):
+            return not ev(e.operand, val)
+        return val[norm(e)]
+
+    for vals in itertools.product([False, True], repeat=2):
+        val = dict(zip(sorted(want), vals))
+        if ev(test, val) != (not all(vals)):
+            ctx.bad("C15.6", f, rej[0].test, f"for `Any` the rejection is not 'one of shape / dtype is missing' (disagrees for {val})", construct="Any: shape/dtype truth table")
+            return
+    ctx.ok("C15.6", f.qualname, "for `Any`: rejected exactly when `shape` or `dtype` is missing")
+
+
+# ------------------------------------------------------------------------ C15.5
+def check_derived_fields_follow_the_merge(ctx):
+    """`D2[D1[A, s1], s2]` means `D[A, 's2 s1']`: everything an annotation stores is a function of the *merged* dims / dim string.  A value
+    that `_make_array_cached` computes from the outer `dims` before the nesting branch extends them (a "binds no axis name" flag, the right
+    end of the variadic slice, a rank) and that the branch does not recompute on every path describes the outer part only."""
+    m = ctx.model
+    f = _mk(ctx)
+    nest = [st for st in f.body if isinstance(st, ast.If) and "issubclass" in norm(st.test) and "AbstractArray" in norm(st.test)]
+    need(len(nest) == 1, "C15.5: nesting branch of _make_array_cached not found")
+    nb = nest[0]
+    pos = f.body.index(nb)
+
+    def targets(st):
+        if isinstance(st, ast.Assign):
+            return [x.id for t in st.targets for x in ast.walk(t) if isinstance(x, ast.Name)]
+        if isinstance(st, (ast.AugAssign, ast.AnnAssign)) and isinstance(st.target, ast.Name) and getattr(st, "value", None) is not None:
+            return [st.target.id]
+        return []
+
+    merged = {n for st in nb.body for n in targets(st)}  # re-bound unconditionally by the merge: dims, dim_str, array_type
+    rets = [x.value for x in walk_scope(f.node) if isinstance(x, ast.Return) and x.value is not None and f.body.index(next(b for b in f.body if any(y is x for y in ast.walk(b)))) > pos]
+    out_names = set()
+    for rv in rets:
+        elts = rv.elts if isinstance(rv, ast.Tuple) else [k.value for k in rv.keywords] + list(rv.args) if isinstance(rv, ast.Call) else []
+        out_names |= {e.id for e in elts if isinstance(e, ast.Name)}
+    ctx.counters["returned_fields"] = len(out_names)
+    ctx.floor("C15.5", "returned_fields", 5)
+    before = [st for b in f.body[:pos] for st in ast.walk(b) if isinstance(st, (ast.Assign, ast.AugAssign, ast.AnnAssign))]
+    # locals whose value (as computed before the branch) reads a merged variable
+    dep = set(merged)
+    changed = True
+    while changed:
+        changed = False
+        for st in before:
+            v = getattr(st, "value", None)
+            if v is None:
+                continue
+            if any(isinstance(x, ast.Name) and x.id in dep for x in ast.walk(v)):
+                for n in targets(st):
+                    if n not in dep:
+                        dep.add(n)
+                        changed = True
+    after_top = {n for b in f.body[pos + 1:] for n in targets(b)}
+    in_nb_top = {n for st in nb.body for n in targets(st)}
+    n_bad = 0
+    for v in sorted((dep - merged) & out_names):
+        # index_variadic itself is shifted conditionally by design (C15.1 decides it); dtypes are narrowed by design
+        if v in ("index_variadic", "dtypes"):
+            continue
+        if v in after_top or v in in_nb_top:
+            ctx.ok("C15.5", f.qualname, f"`{v}` is recomputed after / in the merge")
+            continue
+        d0 = next(st for st in before if v in targets(st))
+        n_bad += 1
+        ctx.bad("C15.5", f, d0, f"`{v}` is computed from the outer part (`{short(d0, 60)}`) before the nesting branch merges in the inner annotation's axes, and is not recomputed "
+                f"on every path afterwards: for `D2[D1[A, s1], s2]` it describes `s2` only, so the nested annotation does not mean `D[A, 's2 s1']`", construct=f"field {v} stale after the nesting merge")
+    if not n_bad:
+        ctx.ok("C15.5", f.qualname, f"no returned field other than the merged ones ({sorted(merged & out_names)}) is computed from the outer dims before the merge")
 
 
 # ------------------------------------------------------------------------ C15.1
@@ -56,17 +181,32 @@ def check_nesting(ctx):
         for a in ast.walk(st):
             if isinstance(a, ast.Assign) and isinstance(a.targets[0], ast.Name):
                 idx.setdefault(a.targets[0].id, []).append((i, a))
+            elif isinstance(a, ast.AugAssign) and isinstance(a.target, ast.Name) and isinstance(a.op, ast.Add):
+                # `dims += X` on a tuple / str local is `dims = dims + X`
+                syn = ast.copy_location(ast.Assign(targets=[ast.Name(id=a.target.id, ctx=ast.Store())],
+                                                   value=ast.BinOp(left=ast.Name(id=a.target.id, ctx=ast.Load()), op=ast.Add(), right=a.value)), a)
+                ast.fix_missing_locations(syn)
+                idx.setdefault(a.target.id, []).append((i, syn))
     # dims / dim_str order
     d = [a for _, a in idx.get("dims", [])]
     s = [a for _, a in idx.get("dim_str", [])]
-    if len(d) != 1 or norm(d[0].value) != f"dims + {at}.dims":
+    def _flat_add(e):
+        return _flat_add(e.left) + _flat_add(e.right) if isinstance(e, ast.BinOp) and isinstance(e.op, ast.Add) else [norm(e)]
+
+    if len(d) == 1 and _flat_add(d[0].value) == ["dims", f"{at}.dims"]:
+        ctx.ok("C15.1", f.qualname, "dims = outer dims + inner dims")
+    elif not d or (len(d) == 1 and _flat_add(d[0].value) in ([f"{at}.dims", "dims"], [f"{at}.dims"], ["dims"])):
         ctx.bad("C15.1", f, d[0] if d else nb, f"nested dims are not concatenated outer-first (`dims + {at}.dims`): D2[D1[A, s1], s2] must mean 's2 s1'")
     else:
-        ctx.ok("C15.1", f.qualname, "dims = outer dims + inner dims")
-    if len(s) != 1 or norm(s[0].value) != f"dim_str + ' ' + {at}.dim_str":
-        ctx.bad("C15.1", f, s[0] if s else nb, "the nested dim string is not concatenated in the same outer-first order as the dims")
-    else:
+        raise AnalysisError(f"C15.1: how the dims of a nested annotation are combined was not recognised (`{'; '.join(norm(x.value) for x in d)}`)")
+    if len(s) == 1 and _flat_add(s[0].value) == ["dim_str", "' '", f"{at}.dim_str"]:
         ctx.ok("C15.1", f.qualname, "dim_str = outer + ' ' + inner (same order as dims)")
+    elif not s or (len(s) == 1 and _flat_add(s[0].value) in ([f"{at}.dim_str", "' '", "dim_str"], [f"{at}.dim_str"], ["dim_str"], ["dim_str", f"{at}.dim_str"])):
+        ctx.bad("C15.1", f, s[0] if s else nb, "the nested dim string is not concatenated in the same outer-first order as the dims")
+    elif len(s) == 1 and isinstance(s[0].value, ast.JoinedStr) and [norm(v_.value) if isinstance(v_, ast.FormattedValue) else repr(v_.value) for v_ in s[0].value.values] == ["dim_str", "' '", f"{at}.dim_str"]:
+        ctx.ok("C15.1", f.qualname, "dim_str = f'{outer} {inner}' (same order as dims)")
+    else:
+        raise AnalysisError(f"C15.1: how the dim strings of a nested annotation are combined was not recognised (`{'; '.join(norm(x.value) for x in s)}`)")
     # index_variadic shift uses the outer length: assigned before dims is concatenated
     iv = idx.get("index_variadic", [])
     shift = [(i, a) for i, a in iv if f"{at}.index_variadic" in norm(a.value)]
@@ -493,10 +633,11 @@ def check_scalar_ladder(ctx):
     last = cs.body[-1]
     txt = norm(last)
     single_return = True
-    if where is not None and any(where is x_ for x_ in cs.body) and cs.body.index(where) < len(cs.body) - 2:
+    top_ = next((x_ for x_ in cs.body if where is not None and any(where is y_ for y_ in ast.walk(x_))), None)
+    if top_ is not None and cs.body.index(top_) < len(cs.body) - 2:
         # the membership part is spelled with statements (`if dtypes is _any_dtype: return True` / a loop with `return True` / `return False`):
         # read all of them together
-        tail_ = cs.body[cs.body.index(where) + 1:]
+        tail_ = cs.body[cs.body.index(top_) + 1:]
         last = ast.Module(body=tail_, type_ignores=[])
         txt = " ; ".join(norm(x_) for x_ in tail_)
         single_return = False
